@@ -7511,6 +7511,22 @@ impl Machine {
         let key = cell_as_atom!(self.deref_register(1));
         let new_value = self.deref_register(2);
 
+        // a variable of the environment is gone when the clause returns, the
+        // stored value is not: move the variable to the heap first.
+        let new_value = if new_value.is_stack_var() {
+            let h = self.machine_st.heap.cell_len();
+
+            step_or_resource_error!(
+                self.machine_st,
+                self.machine_st.heap.push_cell(heap_loc_as_cell!(h))
+            );
+
+            self.machine_st.bind(Ref::heap_cell(h), new_value);
+            heap_loc_as_cell!(h)
+        } else {
+            new_value
+        };
+
         match self.indices.global_variables.get_mut(&key) {
             Some((_, loc)) => match loc {
                 Some(value) => {
